@@ -406,6 +406,40 @@ def main19(tag, outdir):
         open(os.path.join(outdir, aid + ".txt"), "w").write(out)
         print(aid, len(out))
 
+# wave 20: degenerate and aliased inputs (zero amounts, equal bounds, the same account in two places)
+DEGEN20 = [
+ ("N01", "swap / swap_v2: amount 0, a price limit equal to the current price or on the wrong side, the same token account given for both tokens, the trader's account equal to a vault, repeated tick arrays"),
+ ("N02", "two_hop_swap / two_hop_swap_v2: the same pool twice, pools that share both mints, intermediate accounts that coincide with input or output accounts, amount 0, limits on one leg only"),
+ ("N03", "increase / decrease liquidity (all variants incl. by token amounts and reposition): liquidity 0, token maxima / minima 0, the same token account for both tokens, a position token account holding 0 or 2 tokens, lower and upper tick array the same account or swapped"),
+ ("N04", "open / close position (all variants): equal or swapped bounds, bounds off the spacing, the one-sided sentinels, the receiver of the rent equal to the position or the pool, closing twice"),
+ ("N05", "collect_fees / collect_reward / collect_protocol_fees (v1 and v2): nothing owed, destination equal to the vault, reward index 3, the same destination for both tokens, collecting twice in a row"),
+ ("N06", "initialisation and administration: tick spacing 0 or duplicates of an existing fee tier, initialize_pool with equal or unordered mints, a reward whose mint or vault is one of the pool's own, authorities set to the same key or to the default key, rates exactly at and one above their maxima"),
+ ("N07", "position bundles, lock_position, transfer_locked_position: bundle index 255 and 256, a bundled position opened twice, destination equal to source, locking twice, a lock config of another position"),
+ ("N08", "the Rust core SDK (rust-sdk/core): zero amounts, zero liquidity, equal ticks or prices, slippage 0 and above 10000 bps, empty or repeated tick arrays, fee rate 0"),
+]
+
+def main20(tag, outdir):
+    os.makedirs(outdir, exist_ok=True)
+    root = os.path.dirname(os.path.dirname(os.path.abspath(__file__)))
+    brief = open(os.path.join(root, "notes/SEED_BRIEF.md")).read().split("\n---\n", 1)[1]
+    props = [json.loads(l) for l in open(os.path.join(root, "properties.jsonl"))]
+    plist = "\n".join(f"* {p['id']} — {p['title']}. {p['statement']}" for p in props)
+    for aid, area in DEGEN20:
+        d = f"/tmp/{tag}_{aid}"
+        text = ("This time you are not given one property but a family of DEGENERATE OR ALIASED INPUTS. The repository is expected to satisfy all of the "
+                "following properties (each must hold for every input, history and configuration):\n\n" + plist +
+                "\n\nYour family:\n  - " + area +
+                "\n\nCallers do send such inputs - by mistake or on purpose - and the program either refuses them or handles them as a harmless special case. "
+                "Read how each member of your family is dealt with today, and make a change after which ONE of them is mishandled in a way that breaks a property above "
+                "(accepted where it must be refused, or handled with a wrong result), while every well-formed input behaves exactly as before. "
+                "Pick whichever property your change breaks, and say which one in meta.json (\"property\": \"Cxx\").")
+        out = (brief.replace("{dir}", d).replace("{property}", text).replace("{used}", "(about 310 earlier changes exist, nearly all of them visible with well-formed inputs - a change that needs a DEGENERATE OR ALIASED input is what is wanted here)")
+               .replace("{steer}", "Every well-formed call (distinct accounts in distinct roles, non-zero amounts, lower < upper on the spacing) must behave bit for bit as before. Say in demo.md how the degenerate input was handled before and what happens to it now.")
+               .replace("{id}", "Cxx"))
+        out = out.replace("Earlier changes written against this property are listed here", "Earlier changes")
+        open(os.path.join(outdir, aid + ".txt"), "w").write(out)
+        print(aid, len(out))
+
 def main():
     tag, outdir = sys.argv[1], sys.argv[2]
     if tag.startswith("seed17"):
@@ -414,6 +448,8 @@ def main():
         return main18(tag, outdir)
     if tag.startswith("seed19"):
         return main19(tag, outdir)
+    if tag.startswith("seed20"):
+        return main20(tag, outdir)
     if tag.startswith("seed14") or tag.startswith("seed15") or tag.startswith("seed16"):
         return main14(tag, outdir)
     if tag.startswith("seed13"):
